@@ -389,21 +389,22 @@ func floatFloatSweep[S, D constraints.Float](w *numWriter, rng *rand.Rand, sty, 
 }
 
 // ---- C16 --------------------------------------------------------------------------------------------
-// depthBurst calls the bit-depth functions for every depth as fast as possible (no I/O in between) and returns the
-// results as events; goroutine g starts at a different depth so that the first calls differ.
-func depthBurst(g int) []*NEvent {
-	type res struct {
-		b          int
-		maxS, minS int64
-		maxU       uint64
-		cs, cs2    int64
-		cu, cu2    uint64
-	}
-	rs := make([]res, 0, 64)
+// depthBurst calls the bit-depth functions for every depth as fast as possible (no allocation or I/O in between)
+// and returns the results as events; goroutine g starts with a different HIGH depth, so that the very first calls of
+// the process hit different, late entries of any table that is being built.
+type burstRes struct {
+	b          int
+	maxS, minS int64
+	maxU       uint64
+	cs, cs2    int64
+	cu, cu2    uint64
+}
+
+func depthBurst(g int, rs []burstRes) []*NEvent {
 	for k := 0; k < 64; k++ {
-		b := 1 + (k+g*5)%64
+		b := 1 + (63-g*3+64-k)%64
 		bd := signal.BitDepth(b)
-		r := res{b: b}
+		r := burstRes{b: b}
 		r.maxS, r.minS, r.maxU = bd.MaxSignedValue(), bd.MinSignedValue(), bd.MaxUnsignedValue()
 		r.cs = bd.SignedValue(math.MinInt64 + 5)
 		r.cs2 = bd.SignedValue(r.cs)
